@@ -70,6 +70,12 @@ MUTANTS = {
             ('comp-orientation', 'def_file.py', "        orientation = args[3].value\n        self.def_file.components[name] = (kind, point, orientation)", "        orientation = args[3].value[-1]\n        self.def_file.components[name] = (kind, point, orientation)"),
             ('pin-placed-xy', 'def_file.py', "        elif opt in ['placed']: val = (args[1][0], args[1][1], args[2].value)", "        elif opt in ['placed']: val = (args[1][1], args[1][0], args[2].value)"),
             ('net-pins-order', 'def_file.py', "    def net_pin(self, args): return '__pin__', (args[0].value, args[1].value)", "    def net_pin(self, args): return '__pin__', (args[1].value, args[0].value)")],
+    'C14': [('posedge-pol', 'sdf.py', "                    if i_pin_spec.startswith('(posedge '): i_pol_idxs = [0]", "                    if i_pin_spec.startswith('(posedge '): i_pol_idxs = [1]"),
+            ('single-list-both', 'sdf.py', "    if len(args) == 3: args.append(args[2])", "    if len(args) == 3: args.append([])"),
+            ('ic-line', 'sdf.py', "            if f1 != f2:  # at least two forks, make sure f2 is a branchfork connected to f1\n                assert len(f2.outs) == 1\n                assert f1.outs[f2.ins[0].driver_pin] == f2.ins[0]\n                line = f2.ins[0]", "            if f1 != f2:  # at least two forks, make sure f2 is a branchfork connected to f1\n                assert len(f2.outs) == 1\n                assert f1.outs[f2.ins[0].driver_pin] == f2.ins[0]\n                line = c2.ins[p2]"),
+            ('ic-rf-swapped', 'sdf.py', "            delays[line, :] = delvals", "            delays[line, :] = delvals[::-1]"),
+            ('typ-max-swapped', 'sdf.py', "    def triple(args): return [float(a.value[:-1]) if len(a.value) > 1 else 0.0 for a in args]", "    def triple(args): return [float(a.value[:-1]) if len(a.value) > 1 else 0.0 for a in (args[0], args[2], args[1])] if len(args) == 3 else []"),
+            ('zero-skip-min', 'sdf.py', "            if max(max(delvals)) == 0: continue", "            if min(max(delvals)) == 0: continue")],
 }
 
 
